@@ -363,6 +363,36 @@ def closure (strands : Nat) (word : List Int) : Res Link := do
   let pd ← closurePD strands word
   pure (fromPD4 pd)
 
+/-! ### checker for component lists (proved sound in `Proofs/C18Check.lean`, evaluated by the driver on
+every compared case): the components are exactly the classes of the relation that identifies the two labels
+of a strand through a crossing (for a fully resolved diagram: the edge-identification relation). -/
+
+/-- `e` and `e'` are the labels at the two ends of a strand through some crossing -/
+def joined (l : Link) (e e' : Nat) : Bool :=
+  l.any (fun c => (List.range 4).any (fun j => c.edge j == e && c.edge (c.ctype.pass j) == e'))
+
+def chainOk (l : Link) : List Nat → Bool
+  | [] => true
+  | [_] => true
+  | a :: b :: r => joined l a b && chainOk l (b :: r)
+
+def cycleOk (l : Link) (es : List Nat) : Bool :=
+  match es.head?, es.getLast? with
+  | some a, some z => chainOk l es && joined l z a
+  | _, _ => false
+
+def closedUnder (l : Link) (es : List Nat) : Bool :=
+  l.all (fun c => (List.range 4).all (fun j => !es.contains (c.edge j) || es.contains (c.edge (c.ctype.pass j))))
+
+def nodupB : List Nat → Bool
+  | [] => true
+  | a :: r => !r.contains a && nodupB r
+
+def checkComps (l : Link) (comps : List Path) : Bool :=
+  let flat := comps.flatMap (·.edges)
+  comps.all (fun p => p.closed && cycleOk l p.edges && closedUnder l p.edges)
+    && nodupB flat && (allEdges l).all flat.contains && flat.all (allEdges l).contains
+
 /-! ### convenience wrappers for other models (total versions) -/
 
 def resGetD {α} (r : Res α) (d : α) : α :=
